@@ -13,7 +13,9 @@ P("C29",
              "c29_no_duplicates, c29_all_delivered_at_end; at the abstract level (bounded FIFO channels, arbitrary arbitration oracle, devices always accept) "
              "c29_conservation (nothing lost or duplicated under any schedule) and c29_delivery_progress (no deadlock under a channel ranking, every move brings a "
              "packet closer, every maximal execution hands every packet to its device exactly once, and one exists within measure moves); c29_mesh_channel_ranking "
-             "discharges the ranking hypothesis for dimension-order mesh routing. Every run of the check executes real mesh 2D/3D, PCIe, NVLink/PCIe and generic "
+             "discharges the ranking hypothesis for dimension-order mesh routing and c29_mesh_delivery_progress instantiates the abstract network with the mesh "
+             "(one numbered bounded channel per switch output port, routes from the C30 model of FindPort): for every grid, capacities >= 1, message set and "
+             "arbitration, executions are finite, never deadlock, conserve the messages and every maximal execution delivers every message exactly once. Every run of the check executes real mesh 2D/3D, PCIe, NVLink/PCIe and generic "
              "networks to quiescence, feeds the device-port event list to the acceptor inside Coq, and ties flit counts and switch paths of the real traffic to the C31/C30 models.",
   level_note="PARTIAL: the switch pipeline internals (receive pipeline, route/forward/send-out buffers, round-robin arbitration) are "
              "not modelled line by line; they are covered by trace inclusion of sampled real runs and by the abstract channel network.",
